@@ -352,3 +352,19 @@ def run(chk: Check, args):
         'CPython asyncio.Lock is FIFO and an uncontended acquire does not suspend',
         'start states are installed with TransferState.init_from_state, as read_cache does',
     ]
+
+
+def replay(chk: Check, data: dict):
+    """Re-execute the schedule of a replay file on the current tree and validate the new trace."""
+    meta = (data.get('replay') or {}).get('meta') or {}
+    init = tuple(meta['init'])
+    stim = tuple(tuple(x) for x in meta['stimuli'])
+    tmp = tempfile.mkdtemp(prefix='c03-')
+    try:
+        ev = Replayer(tmp, bool(meta.get('api'))).run(init, stim)
+    finally:
+        shutil.rmtree(tmp, ignore_errors=True)
+    for e in ev:
+        print('  ', {k: v for k, v in e.items() if k != 'snap'})
+    v = tlc.validate_traces(TRACE, 'Trace.cfg', [ev], diag_cfg='TraceDiag.cfg', timeout=600)
+    chk.apply_verdicts(v, [ev], _fingerprint, meta_of=lambda tid: meta)
